@@ -267,6 +267,8 @@ pub struct FaultCfg {
     pub addr_in_use_pm: u32,
     /// ... but only from this round on (a collision storm that starts late).
     pub addr_in_use_from_round: u32,
+    /// The per-probe datagram sockets of unprivileged UDP collide as well.
+    pub addr_in_use_udp: bool,
     pub tick_base_ns: u64,
     pub tick_jitter_ns: u64,
 }
